@@ -56,6 +56,10 @@ THEOREMS = [
 HAZ_UPD_LOAD = "conc:get-miss||update-same-file"
 HAZ_UNL_LOAD = "conc:unload||load-same-file"
 HAZ_UNL_WRITE = "conc:unload||write-same-file"
+# what the three known defects lead to (DESIGN section 8 / notes/C18.md); KeyError: recover_memory
+# popping a stale access-list name after the corrupted byte total took the can't-cache branch
+KNOWN_CONSEQUENCES = {"linearizability", "final-disk", "final-cache", "accounting",
+                      "raises:AssertionError", "raises:KeyError"}
 
 
 # --------------------------------------------------------------------------- one execution
@@ -582,7 +586,8 @@ def core_scenarios():
     """fixed scenarios run on every check: the witnesses of the known findings and the basic
     hazard-free races (two writers, writer vs reader of a cached file, eviction, new file)"""
     S1 = lambda threads, **kw: dict(max=kw.get("max", 64), files=kw.get("files", {"f": OLD}),
-                                    setup=kw.get("setup", []), threads=threads)
+                                    setup=kw.get("setup", []), threads=threads,
+                                    **({"quick_cap": kw["quick_cap"]} if "quick_cap" in kw else {}))
     return [
         ("get-miss||update", S1([[["get", "f"]], [["update", "f", NEW6, 0]]])),
         ("get-miss||update||update", S1([[["get", "f"]], [["update", "f", NEW6, 0]], [["update", "f", XY, 0]]])),
@@ -606,6 +611,15 @@ def core_scenarios():
                                          files={"f": b"TOOLARGE".hex()})),
         ("cached:unload||get||update-other", S1([[["unload", "f"]], [["get", "f"]], [["update", "g", NEW6, 0]]],
                                                 files={"f": OLD, "g": XY}, setup=[["get", "f"]])),
+        # a getter parked between its stat calls and the lock while the file is replaced and dropped
+        ("stat-gap:get||update;unload", S1([[["get", "f"]], [["update", "f", NEW6, 0], ["unload", "f"]]])),
+        ("stat-gap:get||update-f;update-g(evicts)", S1([[["get", "f"]], [["update", "f", b"ABCD".hex(), 0], ["update", "g", b"GHIJ".hex(), 0]]],
+                                                       max=6, files={"f": XY, "g": XY})),
+        # two files that do not fit together (3 + 2 > 4): unload / hit / reload under memory pressure
+        ("pressure:unload-f;get-g||get-f;get-f", S1([[["unload", "f"], ["get", "g"]], [["get", "f"], ["get", "f"]]],
+                                                    max=4, files={"f": OLD, "g": XY}, setup=[["get", "f"]], quick_cap=6000)),
+        ("pressure:get-g;get-f||unload-f;get-f", S1([[["get", "g"], ["get", "f"]], [["unload", "f"], ["get", "f"]]],
+                                                    max=4, files={"f": OLD, "g": XY}, setup=[["get", "f"]])),
     ]
 
 
@@ -656,6 +670,40 @@ def pair_scenarios():
     return out
 
 
+def seq_scenarios():
+    """thorough tier: (a) every two-thread scenario on one file whose threads run any sequence of one
+    or two operations (cache cold and warm); (b) two files that do not fit together, threads running
+    two operations out of get f / get g / unload f with f cached first"""
+    out = []
+    alpha = ["get", "update", "unload"]
+    seqs = [[a] for a in alpha] + [[a, b] for a in alpha for b in alpha]
+    uid = [0]
+
+    def mk(kinds, name):
+        ops = []
+        for k in kinds:
+            if k == "update":
+                uid[0] += 1
+                ops.append(["update", name, (chr(ord("a") + uid[0] % 26) * (1 + uid[0] % 6)).encode().hex(), 0])
+            else:
+                ops.append([k, name])
+        return ops
+
+    for i, j in itertools.combinations_with_replacement(range(len(seqs)), 2):
+        if len(seqs[i]) + len(seqs[j]) < 3:
+            continue                      # one op each: pair_scenarios
+        for setup in ([], [["get", "f"]]):
+            uid[0] = 0
+            out.append((f"seq:{'-'.join(seqs[i])}||{'-'.join(seqs[j])}:{'warm' if setup else 'cold'}",
+                        dict(max=64, files={"f": OLD}, setup=setup, threads=[mk(seqs[i], "f"), mk(seqs[j], "f")]), 2, 2000))
+    palpha = [["get", "f"], ["get", "g"], ["unload", "f"]]
+    pseqs = [[a, b] for a in palpha for b in palpha]
+    for i, j in itertools.combinations_with_replacement(range(len(pseqs)), 2):
+        out.append((f"pressure:{i}||{j}", dict(max=4, files={"f": OLD, "g": XY}, setup=[["get", "f"]],
+                                               threads=[pseqs[i], pseqs[j]]), 2, 4000))
+    return out
+
+
 # --------------------------------------------------------------------------- per-scenario work (runs in a worker process)
 
 _W = {}
@@ -698,7 +746,18 @@ def check_execution(scn, ex, choices, drv, out):
         out["hist"]["result:" + h["op"][0] + ":" + h["res"][0]] += 1
     if fails:
         clause, expected, observed = fails[0]
-        key = hz[0][1] if hz else "conc:safe:" + clause
+        if hz:
+            # a known class covers only the consequences the known defect is known to have
+            # (wrong values / accounting / the worker's assertion); anything else that goes
+            # wrong inside such a window - calls that never return, other exceptions - is new
+            extra = [f for f in fails if f[0] not in KNOWN_CONSEQUENCES]
+            if extra:
+                clause, expected, observed = extra[0]
+                key = hz[0][1] + ":" + clause
+            else:
+                key = hz[0][1]
+        else:
+            key = "conc:safe:" + clause
         out["hist"]["fail:" + key + ":" + clause] += 1
         if len(out["fails"]) < 40 and not any(f[0] == key for f in out["fails"]):
             out["fails"].append((key, case, expected, observed,
@@ -818,7 +877,7 @@ def run(ctx):
             jobs.append(("witness", e["id"], e["matcher"]["key"], w["scenario"], w["choices"]))
     if quick:
         for name, scn in core_scenarios():
-            jobs.append(("explore", name, scn, 2, 800))
+            jobs.append(("explore", name, scn, 2, scn.get("quick_cap", 800)))
         for i in range(28):
             jobs.append(("explore", f"rnd{i}", random_scenario(ctx.rng), 2, 300))
         for name, scn in df_scenarios():
@@ -829,7 +888,9 @@ def run(ctx):
             jobs.append(("explore", name, scn, 3, 30000))
         for name, scn in pair_scenarios():
             jobs.append(("explore", name, scn, 3, 6000))
-        for i in range(400):
+        for name, scn, bound, cap in seq_scenarios():
+            jobs.append(("explore", name, scn, bound, cap))
+        for i in range(300):
             jobs.append(("explore", f"rnd{i}", random_scenario(ctx.rng), 2, 2000))
         for name, scn in df_scenarios():
             jobs.append(("explore", name, scn, 2, 1500))
